@@ -44,6 +44,9 @@ func (l *lstRec) started() { l.Started = true }
 //go:norace
 func (l *lstRec) closed() { l.CloseCalls++ }
 
+//go:norace
+func addLst(ls []*lstRec, l *lstRec) []*lstRec { return append(ls, l) }
+
 type connRec struct {
 	Host string
 	Ch   netty.Channel
@@ -96,12 +99,16 @@ func runC13(e *Env) {
 	for i := range lclose {
 		lclose[i] = e.P(4) == 3
 	}
+	relisten := make([]bool, nL) // after its Close: a new listener on the same url, then the old one is closed once more
+	for i := range relisten {
+		relisten[i] = lclose[i] && e.P(3) == 2
+	}
 	shutDelay := e.P(6) // steps before Shutdown is called
 	var modes []int
 	for _, l := range lsts {
 		modes = append(modes, l.Mode)
 	}
-	e.Describe("channel=%s listeners=%d(modes %v, explicit Close %v) connects=%d external-dials=%d shutdown-after-steps=%d first-listen-fails=%v duplicate-async=%v accept-fault=%v panicking-active-handler=%v", cc, nL, modes, lclose, nC, nD, shutDelay, listenFail, dupAsync, acceptFail, panicActive)
+	e.Describe("channel=%s listeners=%d(modes %v, explicit Close %v, restarted-after-Close %v) connects=%d external-dials=%d shutdown-after-steps=%d first-listen-fails=%v duplicate-async=%v accept-fault=%v panicking-active-handler=%v", cc, nL, modes, lclose, relisten, nC, nD, shutDelay, listenFail, dupAsync, acceptFail, panicActive)
 	sh := &shutRec{}
 	e.Go("main", func() {
 		for i, l := range lsts {
@@ -133,6 +140,19 @@ func runC13(e *Env) {
 					e.Step()
 					l.closed()
 					l.L.Close()
+					if relisten[i] {
+						// restart the listener: a new Listener value under the same url (the only way to restart an accept
+						// loop that ended); a late second Close of the OLD value must not touch the new one
+						l2 := &lstRec{Host: l.Host, URL: l.URL, Mode: 0}
+						l2.L = rig.BS.Listen(l.URL)
+						l2.started()
+						lsts = addLst(lsts, l2)
+						l2.L.Async(func(err error) { l2.end(e, err) })
+						e.Step()
+						l.closed()
+						l.L.Close()
+						e.Count("listener_restarted_then_old_closed_again", 1)
+					}
 				})
 			}
 		}
